@@ -215,6 +215,7 @@ func checkC14(c *Ctx) error {
 		}
 	}
 	engineCoverage(c, k.E, "")
+	c.Coverage["bounds"] = map[string]any{"alias_history_length": kk, "name_length": maxLen, "migratefiles": "<= 2 packages x <= 2 files, every failure position", "gates": "wire corpus W1-W3 and invalid inputs WI", "outside": "longer histories, other inputs"}
 	c.Coverage["explanation"] = fmt.Sprintf("Alias allocator: symbolic execution of the real TypeConverter.AddImport over every history of %d calls with symbolic paths and desired names (length <= %d): same path => same alias, distinct paths => distinct aliases, recorded alias = returned alias (SMT strings; counterexamples replayed natively). Import table: Imports()+buildImportDecl under every map iteration order. Gates through the CLI on %d wire configurations (DAG family, construct family, the repository's migrate testdata): migrated file byte-identical on a second run, gofmt-stable, type-checks in the source package with the wire files set aside (unused/missing imports are type errors), each set declared once; %d invalid inputs (syntax error, type error, duplicate set name, missing constructor) must exit non-zero and write nothing.", kk, maxLen, valid, invalid)
 	c.Coverage["obligations"] = oblig
 	c.Coverage["evaluations"] = paths + valid + invalid
